@@ -15,6 +15,11 @@ A descriptor that carries a thread count (`nt` > 0, the OpenMP dimension of Kern
 that many threads (cimaged11_omp_set_num_threads, restored behind the call) and, besides the checks above, every
 promised output is compared with what the same call returns on one thread: exactly for arrays, to rounding for the
 scalars that come out of a floating-point reduction.
+A descriptor with verbose > 0 passes that value to the kernel (stdout is swallowed); a descriptor with an OpenMP
+environment (`env` > 0, child started under C20_OMPENV) runs first on one thread, then with what the environment
+delivers, and the promised outputs are compared.  A descriptor whose kernel is "py:..." drives a Python caller of the
+kernels (harness/c20_wrappers.py); every call any Python code makes through ImageD11.cImageD11 is guarded by the
+preconditions of KernelCalls!Extents (a violated one is a finding of the running case).
 A wrapper rejection (f2py raises before the kernel runs, e.g. zero-length arrays) is recorded, not judged.
 `<out>.cur` holds the index of the running case, so that a sanitizer abort names its case.
 
@@ -324,7 +329,7 @@ def k_connectedpixels(d, mat, cx):
     check_mat_img(d, mat, im, cx)
     thr = THRVAL[d["par"]]
     lab = np.full((im.ns, im.nf), P_I32, np.int32)
-    n = cx.call(cx.c.connectedpixels, im.data, lab, thr, 0, d["opt"])
+    n = cx.call(cx.c.connectedpixels, im.data, lab, thr, d.get("vb", 0), d["opt"])
     cx.defined("labels", lab, P_I32)
     cx.scalar("count", n)
     el, en = components(im.data > thr, d["opt"])
@@ -381,7 +386,7 @@ def k_blobproperties(d, mat, cx):
     lab, n = components(im.m1, 1)
     npk = npk_of(d["par"], n)
     cx.prepoison(npk * c.NPROPERTY * 8)
-    res = cx.call(c.blobproperties, im.data, lab, npk, 1.5, 0)
+    res = cx.call(c.blobproperties, im.data, lab, npk, 1.5, d.get("vb", 0))
     if res.shape != (npk, c.NPROPERTY):
         cx.bad("blobproperties: results shape %r for npk=%d" % (res.shape, npk))
         return
@@ -405,7 +410,7 @@ def k_bloboverlaps(d, mat, cx):
     totI = r1[:, c.s_I].sum() + r2[:, c.s_I].sum()
     l1in = l1.copy()
     l2w = l2.copy()
-    ret = cx.call(c.bloboverlaps, l1, npk1, r1, l2w, npk2, r2, 0)
+    ret = cx.call(c.bloboverlaps, l1, npk1, r1, l2w, npk2, r2, d.get("vb", 0))
     cx.scalar("count", ret)
     cx.defined("labels2", l2w, P_I32)
     cx.defined("results1", r1, P_F64)
@@ -847,6 +852,10 @@ def k_sparse_blob2d(d, mat, cx):
         cx.bad("sparse_blob2Dproperties: results shape %r for npk=%d" % (res.shape, npk))
         return
     cx.defined_out("results", res)
+    cx.close("sparse_blob2Dproperties results", res, ref_blob2d(c, i, j, v, lab, npk))
+
+
+def ref_blob2d(c, i, j, v, lab, npk):
     ref = np.zeros((npk, c.NPROPERTY2D))
     if npk:
         ref[:, c.s2D_bb_mn_f] = 65534.
@@ -862,7 +871,7 @@ def k_sparse_blob2d(d, mat, cx):
     np.maximum.at(ref[:, c.s2D_bb_mx_f], lab[sel] - 1, f[sel])
     np.minimum.at(ref[:, c.s2D_bb_mn_s], lab[sel] - 1, s[sel])
     np.minimum.at(ref[:, c.s2D_bb_mn_f], lab[sel] - 1, f[sel])
-    cx.close("sparse_blob2Dproperties results", res, ref)
+    return ref
 
 
 def sp_values(d, im):
@@ -881,16 +890,34 @@ def k_sparse_smooth(d, mat, cx):
     s = np.full(len(v), P_F32, np.float32)
     cx.call(cx.c.sparse_smooth, v, i, j, s)
     cx.defined("s", s, P_F32)
-    dense = np.zeros((im.ns + 2, im.nf + 2))
-    dense[1:-1, 1:-1][im.m1] = v
-    acc = np.zeros((im.ns, im.nf))
+    cx.close("sparse_smooth s", s, ref_smooth(im, v), rel=1e-5)
+
+
+def ref_smooth_mask(m, v):
+    """3 x 3 binomial smoothing (4 / 2 / 1 sixteenths) of the listed pixels, unlisted pixels counting as 0"""
+    ns, nf = m.shape
+    dense = np.zeros((ns + 2, nf + 2))
+    dense[1:-1, 1:-1][m] = v
+    acc = np.zeros((ns, nf))
     wts = {(0, 0): 4, (0, 1): 2, (1, 0): 2, (0, -1): 2, (-1, 0): 2, (1, 1): 1, (1, -1): 1, (-1, 1): 1, (-1, -1): 1}
     for (dr, dc), w in wts.items():
-        acc += w * dense[1 + dr:1 + dr + im.ns, 1 + dc:1 + dc + im.nf]
-    cx.close("sparse_smooth s", s, (acc / 16.0)[im.m1], rel=1e-5)
+        acc += w * dense[1 + dr:1 + dr + ns, 1 + dc:1 + dc + nf]
+    return (acc / 16.0)[m]
+
+
+def ref_smooth(im, v):
+    return ref_smooth_mask(im.m1, v)
 
 
 _EXPSP = [None]
+
+
+def expected_sparse(flat, ns, nf, mask):
+    """labels of the listed pixels by the steepest-ascent definition (C13's independent reference)"""
+    if _EXPSP[0] is None:
+        import c13_replay
+        _EXPSP[0] = c13_replay.expected_sparse
+    return _EXPSP[0](flat, ns, nf, mask)
 
 
 @kernel("sparse_localmaxlabel")
@@ -909,12 +936,9 @@ def k_sparse_lml(d, mat, cx):
     if nnz and (lab.min() < 1 or lab.max() > n):
         cx.bad("sparse_localmaxlabel: labels outside 1..%d: min %d max %d" % (n, lab.min(), lab.max()))
     if nnz <= 60000 and d["par"] != "flat":
-        if _EXPSP[0] is None:
-            import c13_replay
-            _EXPSP[0] = c13_replay.expected_sparse
         full = np.zeros((im.ns, im.nf), np.float32)
         full[im.m1] = v
-        es = _EXPSP[0](full.ravel(), im.ns, im.nf, im.m1)
+        es = expected_sparse(full.ravel(), im.ns, im.nf, im.m1)
         if es is not None:
             cx.eq("sparse_localmaxlabel labels (definition)", lab, np.array(es[0], np.int32))
             cx.eq("sparse_localmaxlabel count", n, es[1])
@@ -1064,13 +1088,14 @@ def k_refine_assigned(d, mat, cx):
     gv, hkl, err = peaks(d["n"], "all")
     N = d["n"]
     t = np.arange(N)
-    lab = {"none": np.zeros(N), "all": np.ones(N), "some": (t % 2 == 0) * 1}[d["par"]].astype(np.int32)
+    label = d["opt"] or 1                   # the grain label asked for (KernelCalls!Opts: 1, 2); the others carry 0 / 7
+    lab = {"none": np.where(t % 3 == 0, 7, 0), "all": np.full(N, label), "some": np.where(t % 2 == 0, label, np.where(t % 3 == 0, 7, 0))}[d["par"]].astype(np.int32)
     ubi = UBI0.copy()
-    npk, s = cx.call(cx.c.refine_assigned, ubi, gv, lab, 1)
+    npk, s = cx.call(cx.c.refine_assigned, ubi, gv, lab, label)
     cx.scalar("npk", npk)
     cx.scalar("drlv2", s)
     cx.defined("ubi", ubi, P_F64)
-    sel = lab == 1
+    sel = lab == label
     dr, ih = ref_drlv2(UBI0, gv)
     cx.eq("refine_assigned npk", npk, int(sel.sum()))
     cx.close("refine_assigned mean drlv2", s, dr[sel].mean() if sel.any() else 0.0)
@@ -1136,10 +1161,11 @@ def ref_geometry(xyz, omega, wvln, wedge, chi, tr):
 def k_compute_gv(d, mat, cx):
     xyz, omega, wedge, chi, tr = geometry_inputs(d["n"], d["par"])
     gv = np.full((d["n"], 3), P_F64)
-    cx.call(cx.c.compute_gv, xyz, omega, 1.0, 0.25, wedge, chi, tr, gv)
+    osign = -1.0 if d["opt"] else 1.0           # (the kernel rotates by omega * omegasign)
+    cx.call(cx.c.compute_gv, xyz, omega, osign, 0.25, wedge, chi, tr, gv)
     cx.defined("gv", gv, P_F64)
     if d["n"]:
-        tth, eta, ds, g = ref_geometry(xyz, omega, 0.25, wedge, chi, tr)
+        tth, eta, ds, g = ref_geometry(xyz, omega * osign, 0.25, wedge, chi, tr)
         cx.close("compute_gv gv vs transform.compute_g_vectors", gv, g)
 
 
@@ -1147,10 +1173,11 @@ def k_compute_gv(d, mat, cx):
 def k_compute_geometry(d, mat, cx):
     xyz, omega, wedge, chi, tr = geometry_inputs(d["n"], d["par"])
     out = np.full((d["n"], 6), P_F64)
-    cx.call(cx.c.compute_geometry, xyz, omega, 1.0, 0.25, wedge, chi, tr, out)
+    osign = -1.0 if d["opt"] else 1.0
+    cx.call(cx.c.compute_geometry, xyz, omega, osign, 0.25, wedge, chi, tr, out)
     cx.defined("out", out, P_F64)
     if d["n"]:
-        tth, eta, ds, g = ref_geometry(xyz, omega, 0.25, wedge, chi, tr)
+        tth, eta, ds, g = ref_geometry(xyz, omega * osign, 0.25, wedge, chi, tr)
         cx.close("compute_geometry tth", out[:, 0], tth)
         cx.close("compute_geometry eta", out[:, 1], eta)
         cx.close("compute_geometry ds", out[:, 2], ds)
@@ -1283,7 +1310,8 @@ def k_count_shared(d, mat, cx):
     if "pi" in mat:
         cx.gen("count_shared pi", pi, mat["pi"])
         cx.gen("count_shared pj", pj, mat["pj"])
-    r = cx.call(cx.c.count_shared, pi, pj)
+    # (ni, nj are optional arguments of the wrapper - `intent(hidden)` in the pyf hides nothing -; it accepts only the lengths)
+    r = cx.call(cx.c.count_shared, pi, pj, n, m) if (n + m) % 2 else cx.call(cx.c.count_shared, pi, pj)
     cx.scalar("count", r)
     e = min(n, m) if par == "dups" else len(np.intersect1d(pi, pj))
     cx.eq("count_shared", r, e)
@@ -1419,7 +1447,7 @@ def ref_mean_var_cut(img, nit, cut, msk_variant):
 @kernel("array_mean_var_cut")
 def k_mean_var_cut(d, mat, cx):
     img = stat_data(d["n"], d["par"])
-    mean, std = cx.call(cx.c.array_mean_var_cut, img, d["opt"], 3.0, 0)
+    mean, std = cx.call(cx.c.array_mean_var_cut, img, d["opt"], 3.0, d.get("vb", 0))
     ref = ref_mean_var_cut(img, d["opt"], 3.0, False)
     const = d["par"] == "const" and d["opt"] > 1      # std = 0: no pixel is below mean + 3 std, 0/0 by definition
     cx.scalar("mean", mean, nan_ok=const or ref is None)
@@ -1433,7 +1461,7 @@ def k_mean_var_cut(d, mat, cx):
 def k_mean_var_msk(d, mat, cx):
     img = stat_data(d["n"], d["par"])
     msk = np.full(d["n"], P_U8, np.uint8)
-    mean, std = cx.call(cx.c.array_mean_var_msk, img, msk, d["opt"], 3.0, 0)
+    mean, std = cx.call(cx.c.array_mean_var_msk, img, msk, d["opt"], 3.0, d.get("vb", 0))
     ref = ref_mean_var_cut(img, d["opt"], 3.0, True)
     const = d["par"] == "const" and d["opt"] > 2
     cx.scalar("mean", mean, nan_ok=const or ref is None)
@@ -1695,29 +1723,30 @@ DERIVED = {("array_mean_var_msk", "msk")}
 
 
 def compare_threads(k, nt, one, many, cx):
-    """the promised outputs on `nt` threads against the same call on one thread"""
+    """the promised outputs on `nt` threads (a number, or a description of the team) against the same call on one thread"""
+    nt = str(nt)
     for name in sorted(one):
         if (k, name) in DERIVED:
             continue
         a, b = one[name], many.get(name)
         if b is None:
-            cx.bad("output %s judged on one thread but not on %d" % (name, nt))
+            cx.bad("output %s judged on one thread but not on %s" % (name, nt))
             continue
         if name.startswith("ret:"):
             fa, fb = float(a), float(b)
             tol = REDUCED.get(k, 0.0) * max(abs(fa), 1.0)
             if not (fa == fb or abs(fa - fb) <= tol or (math.isnan(fa) and math.isnan(fb))):
-                cx.bad("returned %s on %d threads %r, on one thread %r" % (name[4:], nt, b, a))
+                cx.bad("returned %s on %s threads %r, on one thread %r" % (name[4:], nt, b, a))
             continue
         if a.shape != b.shape:
-            cx.bad("output %s: %d cells on %d threads, %d on one thread" % (name, b.size, nt, a.size))
+            cx.bad("output %s: %d cells on %s threads, %d on one thread" % (name, b.size, nt, a.size))
             continue
         ne = (a != b)
         if a.dtype.kind == "f":
             ne &= ~(np.isnan(a) & np.isnan(b))
         if ne.any():
             q = int(np.nonzero(ne)[0][0])
-            cx.bad("output %s depends on the number of threads: cell %d of %d is %r on %d threads, %r on one thread "
+            cx.bad("output %s depends on the number of threads: cell %d of %d is %r on %s threads, %r on one thread "
                    "(%d cells differ)" % (name, q, a.size, b[q].item(), nt, a[q].item(), int(ne.sum())))
 
 
@@ -1726,13 +1755,38 @@ def run_descriptor(case, cx):
     mat = case.get("mat") or {}
     cx.problems, cx.checked, cx.outs, cx.thread_dependent = [], set(), {}, False
     try:
-        K[d["k"]](d, mat, cx)
+        if d["k"].startswith("py:"):            # a Python caller of the kernels (KernelCalls!Callers)
+            import c20_wrappers
+            try:
+                (c20_wrappers.W.get(d["k"]) or c20_wrappers.SELFTEST[d["k"]])(d, mat, cx)
+            except c20_wrappers.Skip:
+                return "skipped", "label numbering does not exist on this shape"
+            except c20_wrappers.GuardError:
+                pass                            # (recorded by the guard: main() collects it)
+        else:
+            K[d["k"]](d, mat, cx)
     except Rejected as e:
         return "rejected", str(e)
     return "ok", None
 
 
+def scalar_arguments(c):
+    """the scalar input arguments of every wrapper of the built module, read off the f2py docstrings: name -> int / real"""
+    import re
+    out = {}
+    for n in dir(c):
+        f = getattr(c, n)
+        if type(f).__name__ != "fortran":
+            continue
+        doc = f.__doc__ or ""
+        body = doc.split("Returns\n-------")[0]
+        out[n] = sorted([m.group(1), "int" if m.group(2) == "int" else "real"]
+                        for m in re.finditer(r"^(\w+) : input (int|float|complex)\b(?!.*array)", body, flags=re.M))
+    return out
+
+
 def main():
+    sys.modules.setdefault("c20_driver", sys.modules[__name__])     # (c20_wrappers imports this module by its name)
     cases_path, out_path = sys.argv[1], sys.argv[2]
     first = int(sys.argv[3]) if len(sys.argv) > 3 else 0            # resume behind an aborting case
     skip = set(x for x in os.environ.get("C20_SKIP", "").split(",") if x)   # kernels that keep aborting
@@ -1742,9 +1796,16 @@ def main():
     threads = [int(x) for x in os.environ.get("C20_THREADS", "").split(",") if x]
     cx = Ctx()
     M = Models()
+    import c20_wrappers
+    c20_wrappers.install()      # every call a Python caller makes through ImageD11.cImageD11 is checked against KernelCalls!Extents
+    GD = c20_wrappers.G
+    ompenv = os.environ.get("C20_OMPENV", "")        # the process was started under this OpenMP environment (tag)
     out = {"n": 0, "problems": [], "rejected": [], "checked": {}, "genbad": [], "calls": 0, "notes": {}, "time_s": {}, "skipped": 0,
            "kernels": sorted(K), "module_functions": sorted(
-               n for n in dir(cx.c) if type(getattr(cx.c, n)).__name__ == "fortran")}
+               n for n in dir(cx.c) if type(getattr(cx.c, n)).__name__ == "fortran"),
+           "callers": sorted(c20_wrappers.W), "caller_kernels": {}, "illformed_callers": 0, "options_run": {},
+           "guard_tags": c20_wrappers.TAGS, "scalar_args": scalar_arguments(cx.c), "env_compared": 0,
+           "omp": {"max_threads": cx.c.cimaged11_omp_get_max_threads(), "env": ompenv}}
     old = cx.c.cimaged11_omp_get_max_threads()
     base = {}                   # descriptor without its thread count -> its promised outputs on one thread
     out["thread_compared"] = 0
@@ -1766,10 +1827,21 @@ def main():
             cur.write("%-12d" % idx)
             cur.flush()
             probs = []
+            GD.reset_case()
             try:
                 if case.get("src", "kc") == "kc":
                     own = case["d"].get("nt", 0)        # the descriptor's own thread count (KernelCalls!PickThreads)
+                    envrun = bool(ompenv) and case["d"].get("env", 0) > 0
                     bk = json.dumps(dict(case["d"], nt=0), sort_keys=True) if own else None
+                    if envrun:
+                        # a call under an OpenMP environment in which the team is not omp_get_max_threads(): first the
+                        # same call on one thread, then with what the environment gives
+                        cx.c.cimaged11_omp_set_num_threads(1)
+                        st1, _ = run_descriptor(case, cx)
+                        cx.c.cimaged11_omp_set_num_threads(old)
+                        out["calls"] += 1
+                        envbase = dict(cx.outs) if st1 == "ok" and not cx.problems else None
+                        probs += ["[one thread] " + p for p in cx.problems]
                     if own > 1 and bk not in base:
                         # the same call on one thread (props/c20.py sends the nt = 1 descriptors first: rarely needed)
                         cx.c.cimaged11_omp_set_num_threads(1)
@@ -1794,28 +1866,44 @@ def main():
                         elif own > 1 and st == "ok" and base.get(bk) is not None and not cx.thread_dependent:
                             compare_threads(case["d"]["k"], own, base[bk], cx.outs, cx)
                             out["thread_compared"] += 1
+                        elif envrun and st == "ok" and envbase is not None and not cx.thread_dependent:
+                            compare_threads(case["d"]["k"], "the OpenMP environment's", envbase, cx.outs, cx)
+                            out["env_compared"] += 1
                         tk = out["time_s"]
                         tk[case["d"]["k"]] = tk.get(case["d"]["k"], 0.0) + time.time() - t0
+                        if st == "skipped":
+                            out["illformed_callers"] += 1
+                            break
                         if st == "rejected":
                             out["rejected"].append([idx, why])
                             log.write(json.dumps({"t": "r", "idx": idx, "why": why}) + "\n")
                             log.flush()
                             break
                         k = case["d"]["k"]
+                        if k.startswith("py:"):         # the kernels this caller really went through
+                            ck = out["caller_kernels"].setdefault(k, {})
+                            for kk, nn in GD.case_calls.items():
+                                ck[kk] = ck.get(kk, 0) + nn
+                        okey = "%s|opt=%d|vb=%d" % (k, case["d"].get("opt", 0), case["d"].get("vb", 0))
+                        out["options_run"][okey] = out["options_run"].get(okey, 0) + 1
                         prev = out["checked"].get(k)
                         now = sorted(cx.checked)
                         if prev is None or len(now) > len(prev):
                             out["checked"][k] = now
                             log.write(json.dumps({"t": "c", "idx": idx, "k": k, "names": now}) + "\n")
                             log.flush()
-                        probs += [("[%d threads] " % nt if nt else "") + p for p in cx.problems]
+                        probs += [("[%d threads] " % nt if nt else "[OpenMP environment %s] " % ompenv if envrun else "") + p
+                                  for p in cx.problems]
                 else:
                     probs = run_model_case(case, idx, M, threads)
                     out["calls"] += 1
             except Exception as e:          # noqa  - an exception out of the real code / a reference is a finding to look at
                 import traceback
                 tb = traceback.extract_tb(sys.exc_info()[2])
-                probs.append("exception %s: %s (at %s:%d)" % (type(e).__name__, e, os.path.basename(tb[-1].filename), tb[-1].lineno))
+                if not isinstance(e, c20_wrappers.GuardError):
+                    probs.append("exception %s: %s (at %s:%d)" % (type(e).__name__, e, os.path.basename(tb[-1].filename), tb[-1].lineno))
+            # preconditions of a kernel violated by a Python caller during this case (whoever swallowed the exception)
+            probs = list(GD.pending) + [p for p in probs if p not in GD.pending]
             out["n"] += 1
             if probs:
                 out["problems"].append({"idx": idx, "problems": probs[:6]})
@@ -1828,6 +1916,7 @@ def main():
         cx.c.cimaged11_omp_set_num_threads(old)
     out["genbad"] = cx.genbad[:20]
     out["notes"] = dict(cx.notes, **FOREIGN)
+    out["guarded_calls"] = dict(GD.calls)
     with open(out_path, "w") as g:
         json.dump(out, g, default=_jd)
 
